@@ -1,4 +1,5 @@
 import Wee.Model.Eval
+import Wee.Proofs.ClampLemmas
 import Wee.Proofs.BitLemmas
 /-!
 # Lemmas about the soft-float model and the evaluator (used by C13 and C05)
